@@ -375,7 +375,7 @@ func reportBloomFails(scn string, fails []bloomFail, detail map[string]interface
 		}
 	}
 	for _, f := range fails {
-		d := map[string]interface{}{"what": f.what}
+		d := map[string]interface{}{"msg": f.oracle + " " + f.caseID + " " + f.what}
 		for k, v := range detail {
 			d[k] = v
 		}
@@ -569,15 +569,19 @@ func kindOf(n, rot int) int { return (n + rot + 3*(n/8)) % nKinds }
 
 // layoutKind: layout 0 is dense (every aligned group of 8 blocks holds all 8 kinds, shifted from
 // group to group); layouts 1 and 2 blank out the even / the odd groups of 8 (one unrelated log
-// only), so that whole bytes of the matcher's bit vectors are zero next to bytes that are not.
+// only), so that whole bytes of the matcher's bit vectors are zero next to bytes that are not, and
+// the other groups begin and end with the plain matching block.
 func layoutKind(n, rot, layout int) int {
-	if layout != 0 && (n/8)%2 == layout-1 {
+	if layout == 0 {
+		return kindOf(n, rot)
+	}
+	if (n/8)%2 == layout-1 {
 		if n%8 == 3 {
 			return 6
 		}
 		return 0
 	}
-	return kindOf(n, rot)
+	return [8]int{1, 5, 2, 4, 7, 3, 6, 1}[(n+8*rot)%8]
 }
 
 type chain struct {
@@ -1221,12 +1225,21 @@ func evalQuery(st *state, c *criteria, matches [][]int, begin, end int) verdict 
 }
 
 func (st *state) detail(c *criteria, begin, end int, v verdict) map[string]interface{} {
-	return map[string]interface{}{
+	d := map[string]interface{}{
 		"part": "query", "L": st.ch.L, "rot": st.ch.rot, "layout": st.ch.layout, "size": st.size, "sections_indexed": st.k,
 		"begin": begin, "end": end, "addr_sel": c.ai, "topic_sel": c.tsel, "criteria": c.String(),
-		"diff": v.kind, "got": v.got, "want": v.want, "error": v.errText, "panic": v.panik,
+		"diff": v.kind, "observed": v.got, "expected": v.want,
+		"msg": fmt.Sprintf("chain of %d blocks, section size %d, %d section(s) indexed: filters.New(backend, %d, %d, %s).Logs: %s",
+			st.ch.L, st.size, st.k, begin, end, c.String(), v.kind),
 		"note": "chain: buildChain(L, rot, layout); block n has kind layoutKind(n, rot, layout), see blockKind in harness/c16",
 	}
+	if v.errText != "" {
+		d["error"] = v.errText
+	}
+	if v.panik != "" {
+		d["panic"] = v.panik
+	}
+	return d
 }
 
 // traceFile, in a worker started with VERIF_C16_TRACE, receives one JSON line per query before the
@@ -1303,6 +1316,7 @@ type collector struct {
 	classes map[string]struct{}
 	viol    map[string]ev.Violation
 	weight  map[string]int
+	found   []ev.Violation
 }
 
 func newCollector() *collector {
@@ -1345,8 +1359,10 @@ func (c *collector) done() *ev.WorkerResult {
 			v.Detail = map[string]interface{}{}
 		}
 		v.Detail["weight"] = c.weight[s]
-		c.res.Violations = append(c.res.Violations, v)
+		c.found = append(c.found, v)
 	}
+	// not through WorkerResult.Violations: the parent keeps the smallest case per signature over all workers
+	c.res.Extra = map[string]interface{}{"violations": c.found}
 	return &c.res
 }
 
@@ -1405,7 +1421,7 @@ func part2(cfgs []chainCfg, deadline time.Time, shard, nshards int, col *collect
 				db, problems := ch.writeChain(size, k)
 				for _, p := range problems {
 					col.violate(ev.Violation{Scenario: "bloombits-index", Oracle: "generator-no-false-negative", CaseID: fmt.Sprintf("size=%d", size),
-						Detail: map[string]interface{}{"part": "index", "L": ch.L, "rot": ch.rot, "layout": ch.layout, "size": size, "sections_indexed": k, "problem": p}}, ch.L*100+k)
+						Detail: map[string]interface{}{"part": "index", "L": ch.L, "rot": ch.rot, "layout": ch.layout, "size": size, "sections_indexed": k, "msg": p}}, ch.L*100+k)
 				}
 				states = append(states, &state{ch: ch, size: size, k: k, b: newBackend(db, uint64(size), uint64(k))})
 			}
@@ -1530,7 +1546,7 @@ func prodStates(ch *chain, col *collector) []*state {
 	db1, problems := ch.writeChain(prodSize, 1)
 	for _, p := range problems {
 		col.violate(ev.Violation{Scenario: "bloombits-index", Oracle: "generator-no-false-negative", CaseID: fmt.Sprintf("size=%d", prodSize),
-			Detail: map[string]interface{}{"part": "prod-index", "problem": p}}, 0)
+			Detail: map[string]interface{}{"part": "prod-index", "msg": p}}, 0)
 	}
 	db2, _ := ch.writeChain(prodSize, 0)
 	cfg := &params.ChainConfig{ChainId: big.NewInt(1337), HF: params.ForkMap{}}
@@ -1551,7 +1567,8 @@ func prodStates(ch *chain, col *collector) []*state {
 	if sections != 2 {
 		// not a wall-clock oracle: the indexer has nothing else to wait for
 		col.violate(ev.Violation{Scenario: "bloombits-index", Oracle: "chain-indexer-indexes-confirmed-sections", CaseID: fmt.Sprintf("sections=%d", sections),
-			Detail: map[string]interface{}{"part": "prod-index", "L": ch.L, "size": prodSize, "sections": sections, "want": 2}}, 0)
+			Detail: map[string]interface{}{"part": "prod-index", "L": ch.L, "size": prodSize, "observed": sections, "expected": 2,
+				"msg": "aqua.NewBloomIndexer over a chain with two full sections and 300 confirmations did not index two sections"}}, 0)
 	}
 	// what the real indexer stored must be what the harness-driven generator stores (cross-check of writeChain)
 	db3, _ := ch.writeChain(prodSize, 2)
@@ -1562,7 +1579,8 @@ func prodStates(ch *chain, col *collector) []*state {
 			b, err2 := core.GetBloomBits(db3, bit, s, head)
 			if err1 != nil || err2 != nil || !bytes.Equal(a, b) {
 				col.violate(ev.Violation{Scenario: "bloombits-index", Oracle: "chain-indexer-equals-generator", CaseID: "prod",
-					Detail: map[string]interface{}{"part": "prod-index", "section": s, "bit": bit, "err_indexer": fmt.Sprint(err1), "err_harness": fmt.Sprint(err2)}}, int(s)*4096+int(bit))
+					Detail: map[string]interface{}{"part": "prod-index", "section": s, "bit": bit, "err_indexer": fmt.Sprint(err1), "err_harness": fmt.Sprint(err2),
+						"msg": fmt.Sprintf("stored vector of bit %d section %d: ChainIndexer/BloomIndexer and the generator driven by the harness differ", bit, s)}}, int(s)*4096+int(bit))
 				break
 			}
 		}
@@ -1644,10 +1662,10 @@ func partProd(deadline time.Time, shard, nshards int, col *collector) {
 				d := st.detail(c, begin, end, v)
 				d["part"] = "prod-query"
 				if len(v.got) > 40 {
-					d["got"] = append(v.got[:40:40], "...")
+					d["observed"] = append(v.got[:40:40], "...")
 				}
 				if len(v.want) > 40 {
-					d["want"] = append(v.want[:40:40], "...")
+					d["expected"] = append(v.want[:40:40], "...")
 				}
 				col.violate(ev.Violation{Scenario: "log-query", Oracle: v.oracle,
 					CaseID: fmt.Sprintf("size=%d/%s/%s", prodSize, involvement(begin, end, indexed, head), v.kind), Detail: d}, len(c.addrs)+2*len(c.tops))
@@ -1760,6 +1778,38 @@ func crashCaseID(d map[string]interface{}, output string) string {
 	return fmt.Sprintf("size=%d/%s/%s", size, involvement(num(d, "begin"), num(d, "end"), k*size, L-1), panicClass(panicLine(output)))
 }
 
+// foundIn decodes the violations a worker reported.
+func foundIn(r *ev.WorkerResult) []ev.Violation {
+	if r == nil || r.Extra == nil {
+		return nil
+	}
+	b, _ := json.Marshal(r.Extra["violations"])
+	var vs []ev.Violation
+	json.Unmarshal(b, &vs)
+	return vs
+}
+
+// reportFound reports, per signature, the smallest case any worker found.
+func reportFound(results []*ev.WorkerResult) {
+	best := map[string]ev.Violation{}
+	for _, r := range results {
+		for _, v := range foundIn(r) {
+			sig := v.Signature()
+			if old, ok := best[sig]; !ok || num(v.Detail, "weight") < num(old.Detail, "weight") {
+				best[sig] = v
+			}
+		}
+	}
+	var sigs []string
+	for s := range best {
+		sigs = append(sigs, s)
+	}
+	sort.Strings(sigs)
+	for _, s := range sigs {
+		run.Violate(best[s])
+	}
+}
+
 // handleCrash: shard died. Run it again with a query trace, then run the last traced query alone.
 func handleCrash(shard, nshards int, output string, baseEnv []string) {
 	if strings.Contains(output, "HARNESS-ERROR") {
@@ -1787,6 +1837,8 @@ func handleCrash(shard, nshards int, output string, baseEnv []string) {
 	}
 	alone, out3, _ := runOne(d)
 	d["panic"] = panicLine(out2)
+	d["msg"] = fmt.Sprintf("the process dies (%s) in filters.New(backend, %d, %d, %v).Logs on a chain of %d blocks, section size %d, %d section(s) indexed",
+		panicLine(out2), num(d, "begin"), num(d, "end"), d["criteria"], num(d, "L"), num(d, "size"), num(d, "sections_indexed"))
 	d["stack"] = headStr(stackHead(out2), 1500)
 	if alone {
 		d["reproduces"] = "the query alone, in a fresh process"
@@ -1851,7 +1903,7 @@ func replay(d *ev.ReplayDoc) {
 		_, problems := ch.writeChain(size, k)
 		for _, p := range problems {
 			run.Violate(ev.Violation{Scenario: "bloombits-index", Oracle: "generator-no-false-negative", CaseID: fmt.Sprintf("size=%d", size),
-				Detail: map[string]interface{}{"problem": p}})
+				Detail: map[string]interface{}{"msg": p}})
 		}
 		if d.Detail["part"] == "index" {
 			return
@@ -1870,7 +1922,7 @@ func replay(d *ev.ReplayDoc) {
 		col := newCollector()
 		ch := buildProdChain()
 		states := prodStates(ch, col)
-		for _, v := range col.done().Violations {
+		for _, v := range foundIn(col.done()) {
 			run.Violate(v)
 		}
 		if d.Detail["part"] == "prod-index" {
@@ -1972,11 +2024,12 @@ func TestCheck(t *testing.T) {
 	baseEnv := []string{"VERIF_JOBS=2", fmt.Sprintf("VERIF_C16_DEADLINE=%d", deadline.UnixNano())}
 	var cmu sync.Mutex
 	crashed := map[int]string{}
-	run.RunWorkers(nw, baseEnv, func(shard int, output string) {
+	results := run.RunWorkers(nw, baseEnv, func(shard int, output string) {
 		cmu.Lock()
 		crashed[shard] = output
 		cmu.Unlock()
 	})
+	reportFound(results)
 	// a worker that died: the code under test crashed the process (a panic on one of the matcher's
 	// goroutines cannot be recovered by the caller). Find the query, report it.
 	var shards []int
